@@ -1,10 +1,13 @@
 (* C15 - delivery follows the current topology under connect / disconnect / destroy / garbage collection.
-   Statements restated from Sync/TopologyProofs.v; `reachable g` = g results from ANY legal history (no parallel
-   edges) of node creation, emission, connect, disconnect, destroy and reference drops, with collection after every step. *)
+   Statements restated from Sync/TopologyProofs.v and Sync/TopologyReentrant.v; `reachable g` = g results from ANY
+   legal history (no parallel edges) of node creation, emission, connect, disconnect, destroy, reference drops and
+   emissions during which a reactive sink edits the graph from inside its callback (ORemit), with collection after
+   every step. *)
 From Coq Require Import List ZArith Bool Arith Relations.
 From SZ Require Import Base.Values.
 From SZ Require Import Sync.Topology.
 From SZ Require Import Sync.TopologyProofs.
+From SZ Require Import Sync.TopologyReentrant.
 Import ListNotations.
 
 Theorem C15_links_consistent : forall g : tgraph, reachable g -> (forall u d : nat, t_alive (tget g u) = true -> t_alive (tget g d) = true -> In d (t_downs (tget g u)) <-> In u (t_ups (tget g d))) /\ (forall n : nat, t_alive (tget g n) = true -> NoDup (t_ups (tget g n)) /\ NoDup (t_downs (tget g n))) /\ (forall n i : nat, t_alive (tget g n) = true -> In i (t_ups (tget g n)) \/ In i (t_downs (tget g n)) -> i < length g) /\ (forall u d : nat, t_alive (tget g d) = true -> In u (t_ups (tget g d)) -> u < d) /\ (forall u d : nat, t_alive (tget g u) = true -> In d (t_downs (tget g u)) -> u < d).
@@ -43,11 +46,12 @@ Theorem C15_sink_survives_own_drop : forall (g : tgraph) (s : nat), reachable g 
 Proof. exact (@sink_survives_own_drop). Qed.
 Print Assumptions C15_sink_survives_own_drop.
 
-Theorem C15_collect_dead : forall (g : tgraph) (n : nat), TShape g -> t_held (tget g n) = false -> t_reg (tget g n) = false -> t_downs (tget g n) = [] -> t_alive (tget (collect g) n) = false.
+(* (since combine_latest(emit_on=...) nodes are modelled: a stream named by the emit_on of a live node is referenced by it) *)
+Theorem C15_collect_dead : forall (g : tgraph) (n : nat), TShape g -> t_held (tget g n) = false -> t_reg (tget g n) = false -> t_downs (tget g n) = [] -> (forall j t : nat, alive g j -> tk (tget g j) = TCombineOn t -> t <> n) -> t_alive (tget (collect g) n) = false.
 Proof. exact (@collect_dead). Qed.
 Print Assumptions C15_collect_dead.
 
-Theorem C15_destroyed_and_dropped_dies : forall (g : tgraph) (n : nat), TInv0 g -> wf_op g (ODestroy n) -> t_downs (tget g n) = [] -> wf_op (step_g g (ODestroy n)) (ODrop n) /\ t_alive (tget (step_g (step_g g (ODestroy n)) (ODrop n)) n) = false.
+Theorem C15_destroyed_and_dropped_dies : forall (g : tgraph) (n : nat), TInv0 g -> wf_op g (ODestroy n) -> t_downs (tget g n) = [] -> (forall j t : nat, tk (tget g j) = TCombineOn t -> t <> n) -> wf_op (step_g g (ODestroy n)) (ODrop n) /\ t_alive (tget (step_g (step_g g (ODestroy n)) (ODrop n)) n) = false.
 Proof. exact (@destroyed_and_dropped_dies). Qed.
 Print Assumptions C15_destroyed_and_dropped_dies.
 
@@ -78,4 +82,55 @@ Print Assumptions C15_reachable_collected.
 Theorem C15_disconnect_non_edge_raises : forall (g : tgraph) (u d : nat), reachable g -> wf_op g (ODisconnect u d) -> ~ In d (t_downs (tget g u)) -> tstep g (ODisconnect u d) = (g, RRaise, []).
 Proof. exact (@disconnect_non_edge_raises). Qed.
 Print Assumptions C15_disconnect_non_edge_raises.
+
+(* ---- graph edits made INSIDE a delivery (ORemit n x t e: emit x at n; the reactive sink t performs the edit e from
+        inside its callback the first time it is handed an element, while the loops of Stream._emit above it on the
+        call stack keep walking the snapshot of the downstream set they took when they started) ---- *)
+
+Theorem C15_reentrant_links_consistent : forall (g : tgraph) (n : nat) (x : val) (t : nat) (e : tedit), reachable g -> wf_op g (ORemit n x t e) -> let g' := step_g g (ORemit n x t e) in (forall u d : nat, t_alive (tget g' u) = true -> t_alive (tget g' d) = true -> In d (t_downs (tget g' u)) <-> In u (t_ups (tget g' d))) /\ (forall i : nat, t_alive (tget g' i) = true -> NoDup (t_ups (tget g' i)) /\ NoDup (t_downs (tget g' i))) /\ (forall i j : nat, t_alive (tget g' i) = true -> In j (t_ups (tget g' i)) \/ In j (t_downs (tget g' i)) -> j < length g') /\ (forall u d : nat, t_alive (tget g' d) = true -> In u (t_ups (tget g' d)) -> u < d) /\ (forall u d : nat, t_alive (tget g' u) = true -> In d (t_downs (tget g' u)) -> u < d).
+Proof. exact (@reentrant_links_consistent). Qed.
+Print Assumptions C15_reentrant_links_consistent.
+
+Theorem C15_reentrant_raw_invariant : forall (g : tgraph) (n : nat) (x : val) (t : nat) (e : tedit) (g' : tgraph) (p' : rpend) (r : bool) (log : list tdeliv), reachable g -> wf_op g (ORemit n x t e) -> rdeliver (S (length g)) g (Some (t, e)) n x = (g', p', r, log) -> TInv0 g'.
+Proof. exact (@reentrant_raw_invariant). Qed.
+Print Assumptions C15_reentrant_raw_invariant.
+
+Theorem C15_reentrant_untouched_sibling_gets_element : forall (g : tgraph) (n : nat) (x : val) (t : nat) (e : tedit) (g' : tgraph) (log : list tdeliv), reachable g -> wf_op g (ORemit n x t e) -> tstep g (ORemit n x t e) = (g', ROk, log) -> forall P c : nat, tk (tget g P) = TPipe -> In c (t_downs (tget g P)) -> t_alive (tget g' P) = true -> In c (t_downs (tget g' P)) -> cnt_edge P c log = cnt_to P log + b2n (n =? P).
+Proof. exact (@reentrant_untouched_sibling). Qed.
+Print Assumptions C15_reentrant_untouched_sibling_gets_element.
+
+Theorem C15_reentrant_untouched_sibling_refuted : exists (ops : list top) (n : nat) (x : val) (t : nat) (e : tedit) (P c : nat), legal [] ops /\ (let g := run_ops [] ops in wf_op g (ORemit n x t e) /\ (exists (g' : tgraph) (log : list tdeliv), tstep g (ORemit n x t e) = (g', RRaise, log) /\ tk (tget g P) = TPipe /\ In c (t_downs (tget g P)) /\ t_alive (tget g' P) = true /\ In c (t_downs (tget g' P)) /\ cnt_edge P c log = 0 /\ cnt_to P log + b2n (n =? P) = 1)).
+Proof. exact (@reentrant_untouched_sibling_refuted). Qed.
+Print Assumptions C15_reentrant_untouched_sibling_refuted.
+
+Theorem C15_reentrant_next_emit_follows_new_topology : forall (g : tgraph) (n : nat) (x : val) (t : nat) (e : tedit) (m : nat) (y : val) (g2 : tgraph) (r : tres) (log : list tdeliv), reachable g -> wf_op g (ORemit n x t e) -> let g1 := step_g g (ORemit n x t e) in wf_op g1 (OEmit m y) -> tstep g1 (OEmit m y) = (g2, r, log) -> r = ROk /\ (forall (s d : nat) (v : val), In (s, d, v) log -> t_alive (tget g1 d) = true /\ In d (t_downs (tget g1 s))) /\ filter (fun e0 : nat * nat * val => fst (fst e0) =? m) log = map (fun d : nat => (m, d, y)) (t_downs (tget g1 m)).
+Proof. exact (@reentrant_next_emit_follows_new_topology). Qed.
+Print Assumptions C15_reentrant_next_emit_follows_new_topology.
+
+Theorem C15_emit_forwarded_to_every_child : forall (g : tgraph) (n : nat) (x : val) (g' : tgraph) (r : tres) (log : list tdeliv), reachable g -> wf_op g (OEmit n x) -> tstep g (OEmit n x) = (g', r, log) -> forall P c : nat, tk (tget g P) = TPipe -> In c (t_downs (tget g P)) -> cnt_edge P c log = cnt_to P log + b2n (n =? P).
+Proof. exact (@emit_forwarded_to_every_child). Qed.
+Print Assumptions C15_emit_forwarded_to_every_child.
+
+Example C15_reentrant_nonvacuous : legal [] c15r_ops /\ map (fun o => (to_raised o, to_deliv o)) (skipn 8 (trun [] c15r_ops)) = [ (false, [(0, 1, VInt 1%Z); (1, 2, VInt 1%Z); (1, 3, VInt 1%Z); (1, 4, VInt 1%Z); (4, 5, VInt 1%Z); (4, 6, VInt 1%Z); (6, 7, VInt 1%Z)]); (false, [(0, 1, VInt 2%Z); (1, 2, VInt 2%Z); (1, 3, VInt 2%Z); (1, 4, VInt 2%Z); (4, 5, VInt 2%Z); (4, 6, VInt 2%Z); (6, 7, VInt 2%Z)]); (false, [(0, 1, VInt 3%Z); (1, 2, VInt 3%Z); (1, 4, VInt 3%Z); (4, 5, VInt 3%Z); (4, 6, VInt 3%Z); (6, 7, VInt 3%Z)]) ] /\ links_of (run_ops [] c15r_ops) = [ (true, [], [1]); (true, [0], [2; 4]); (true, [1], []); (true, [], []); (true, [1], [5; 6]); (true, [4], []); (true, [4], [7]); (true, [6], []) ].
+Proof. exact c15_reentrant_nonvacuous. Qed.
+Print Assumptions C15_reentrant_nonvacuous.
+
+Example C15_reentrant_sibling_nonvacuous : let g := run_ops [] (firstn 9 c15r_ops) in reachable g /\ wf_op g (ORemit 0 (VInt 2%Z) 2 (EDisconnect 1 3)) /\ exists g' log, tstep g (ORemit 0 (VInt 2%Z) 2 (EDisconnect 1 3)) = (g', ROk, log) /\ tk (tget g 1) = TPipe /\ In 4 (t_downs (tget g 1)) /\ t_alive (tget g' 1) = true /\ In 4 (t_downs (tget g' 1)) /\ cnt_edge 1 4 log = 1 /\ cnt_to 1 log = 1 /\ In 3 (t_downs (tget g 1)) /\ ~ In 3 (t_downs (tget g' 1)) /\ cnt_edge 1 3 log = 1.
+Proof. exact c15_reentrant_sibling_nonvacuous. Qed.
+Print Assumptions C15_reentrant_sibling_nonvacuous.
+
+(* ---- combine_latest with an explicit emit_on (TCombineOn t: emit_on names the stream t, given as a stream or by
+        position at construction) ---- *)
+
+Theorem C15_emit_on_only_when_triggered : forall (g : tgraph) (o : top) (g' : tgraph) (r : tres) (log : list tdeliv), reachable g -> wf_op g o -> tstep g o = (g', r, log) -> forall (z t c : nat) (v : val), tk (tget g z) = TCombineOn t -> In (z, c, v) log -> (exists x : val, o = OEmit z x) \/ (exists (x : val) (t' : nat) (e : tedit), o = ORemit z x t' e) \/ (exists w : val, In (t, z, w) log).
+Proof. exact (@emit_on_only_when_triggered). Qed.
+Print Assumptions C15_emit_on_only_when_triggered.
+
+Theorem C15_combine_on_aligned : forall g : tgraph, reachable g -> forall i t : nat, t_alive (tget g i) = true -> tk (tget g i) = TCombineOn t -> length (t_last (tget g i)) = length (t_ups (tget g i)) /\ t_alive (tget g t) = true.
+Proof. exact (@combine_on_aligned). Qed.
+Print Assumptions C15_combine_on_aligned.
+
+Example C15_emit_on_nonvacuous : legal [] c15on_ops /\ map (fun o => (to_raised o, to_deliv o)) (skipn 5 (trun [] c15on_ops)) = [ (false, [(1, 3, VInt 10%Z)]); (false, [(0, 3, VInt 1%Z); (3, 4, VTup [VInt 1%Z; VInt 10%Z])]); (false, [(1, 3, VInt 20%Z)]); (false, []); (false, [(0, 3, VInt 2%Z)]); (false, [(2, 3, VInt 7%Z)]); (false, [(0, 3, VInt 3%Z); (3, 4, VTup [VInt 3%Z; VInt 20%Z; VInt 7%Z])]); (false, []); (false, [(0, 3, VInt 4%Z); (3, 4, VTup [VInt 4%Z; VInt 7%Z])]); (false, []); (false, [(2, 3, VInt 8%Z)]); (false, []); (false, []) ] /\ links_of (run_ops [] c15on_ops) = [ (true, [], []); (false, [], []); (true, [], [3]); (true, [2], [4]); (true, [3], []) ].
+Proof. exact c15_emit_on_nonvacuous. Qed.
+Print Assumptions C15_emit_on_nonvacuous.
 
